@@ -26,7 +26,6 @@ import (
 )
 
 const sigAlias = "dq-torn-append-footer-alias"
-const sigAdvEmpty = "dq-advance-on-empty-corrupts-head"
 
 type jop struct {
 	Kind string  `json:"kind"` // append | advance | scanadv | reopen | purge
@@ -58,9 +57,7 @@ type jcase struct {
 	Final   jcobs   `json:"impl_final_drain"`
 	Crash   *jcrash `json:"crash,omitempty"`
 	Note    string  `json:"note,omitempty"`
-	// AdvEmptyOK: the generator allows Queue.Advance on an empty queue in this history (otherwise
-	// such a call is replaced by a scanner attempt, which fails with io.EOF and changes nothing).
-	AdvEmptyOK  bool `json:"allow_advance_on_empty,omitempty"`
+	AdvEmptyOK  bool `json:"allow_advance_on_empty,omitempty"` // legacy field of older replay files; ignored
 	AdvEmptyHit bool `json:"advance_on_empty_happened,omitempty"`
 }
 
@@ -196,11 +193,7 @@ func execCase(w *vh.W, c *jcase) (failure string) {
 		o := &c.Ops[i]
 		o.Got = nil
 		if o.Kind == "advance" && q.TotalBytes() == 0 {
-			if c.AdvEmptyOK {
-				c.AdvEmptyHit = true
-			} else {
-				o.Kind, o.N = "scanadv", 1
-			}
+			c.AdvEmptyHit = true // Queue.Advance on an empty queue: must be a no-op (fix a852c65657)
 		}
 		switch o.Kind {
 		case "append":
@@ -265,9 +258,6 @@ func execCase(w *vh.W, c *jcase) (failure string) {
 			panic("bad op " + o.Kind)
 		}
 		o.TB = q.TotalBytes()
-	}
-	if c.AdvEmptyHit {
-		c.Crash = nil
 	}
 	if c.Crash != nil {
 		b := bytesOf(c.Crash.B)
@@ -426,15 +416,12 @@ func emit(w *vh.W, c *jcase) {
 	w.Count("max_segment_size", fmt.Sprint(c.MaxSeg))
 	w.Count("verify_mode", fmt.Sprint(c.VMode))
 	nontriv := nacks >= 2 && (ndel > 0 || c.Crash != nil)
+	if c.AdvEmptyHit {
+		w.Count("history_has_advance_on_empty", "true")
+	}
 	if c.Crash == nil {
-		sig := ""
-		if c.AdvEmptyHit {
-			sig = sigAdvEmpty
-			w.Count("shape", "advance-on-empty")
-		} else {
-			w.Count("shape", "clean-drain")
-		}
-		w.Add(caseTerm(c, nil), c, nontriv, sig)
+		w.Count("shape", "clean-drain")
+		w.Add(caseTerm(c, nil), c, nontriv, "")
 		return
 	}
 	var plain, alias []jcobs
@@ -483,7 +470,7 @@ func allKs(n int) []int {
 
 func main() {
 	w := vh.New("C26", "From Verif Require Import Base.Prelude Model.C26.\nOpen Scope Z_scope.", "case", "check")
-	w.Rule = "histories (3-14 ops) of Append / Queue.Advance / scanner(n)+Advance / reopen / PurgeOlderThan on a real durablequeue.Queue with max segment size in {24..300} bytes (roll-over every 1-4 entries), max queue size from 2x segment size (ErrQueueFull reachable) to 4096, verifyBlockFn permissive or strict; entries are non-empty with a unique first byte; benign stream = small/zero-rich bytes, adversarial stream = payloads embedding the big-endian encoding of record boundaries of the current tail. About 2/3 of the histories end with a torn last Append: every prefix length k of its write (all k for entries up to 40 bytes, else a boundary-biased subset) is applied to a copy of the directory, reopened and drained. Aliasing crash images (last 8 bytes are not a persisted footer yet decode to <= size-8) are emitted as separate cases carrying the known-finding signature. Hand-picked regression cases come first. Non-trivial: at least two acknowledged appends and at least one delivery or crash image. Distinct: distinct Gallina terms."
+	w.Rule = "histories (3-14 ops) of Append / Queue.Advance / scanner(n)+Advance / reopen / PurgeOlderThan on a real durablequeue.Queue with max segment size in {24..300} bytes (roll-over every 1-4 entries), max queue size from 2x segment size (ErrQueueFull reachable) to 4096, verifyBlockFn permissive or strict; entries are non-empty with a unique first byte; benign stream = small/zero-rich bytes, adversarial stream = payloads embedding the big-endian encoding of record boundaries of the current tail. About 2/3 of the histories end with a torn last Append: every prefix length k of its write (all k for entries up to 40 bytes, else a boundary-biased subset) is applied to a copy of the directory, reopened and drained. Queue.Advance is also called on empty queues (must be a no-op since fix a852c65657). Aliasing crash images (last 8 bytes are not a persisted footer yet decode to <= size-8) are emitted as separate cases carrying the known-finding signature. Hand-picked regression cases come first. Non-trivial: at least two acknowledged appends and at least one delivery or crash image. Distinct: distinct Gallina terms."
 	tmpRoot = os.TempDir()
 	if st, err := os.Stat("/dev/shm"); err == nil && st.IsDir() {
 		tmpRoot = "/dev/shm"
@@ -518,7 +505,10 @@ func main() {
 		// oversize entry bumps the segment's max size
 		{MaxSize: 4096, MaxSeg: 24, Ops: []jop{{Kind: "append", B: rep(1, 60)}, {Kind: "append", B: rep(2, 3)}, {Kind: "reopen"}, {Kind: "scanadv", N: 1}, {Kind: "append", B: rep(3, 3)}}},
 		// Queue.Advance on an empty queue, then append
-		{MaxSize: 1024, MaxSeg: 64, AdvEmptyOK: true, Ops: []jop{{Kind: "advance"}, {Kind: "append", B: rep(7, 10)}}},
+		{MaxSize: 1024, MaxSeg: 64, Ops: []jop{{Kind: "advance"}, {Kind: "append", B: rep(7, 10)}}},
+		// the same after everything was consumed, followed by a reopen and a torn append
+		{MaxSize: 1024, MaxSeg: 64, Ops: []jop{{Kind: "append", B: rep(1, 5)}, {Kind: "scanadv", N: 3}, {Kind: "advance"}, {Kind: "advance"}, {Kind: "append", B: rep(2, 6)}, {Kind: "reopen"}},
+			Crash: &jcrash{B: rep(3, 20), Ks: allKs(20)}},
 		// purge everything / purge the first segment
 		{MaxSize: 1024, MaxSeg: 24, Ops: []jop{{Kind: "append", B: rep(1, 10)}, {Kind: "append", B: rep(2, 10)}, {Kind: "append", B: rep(3, 10)}, {Kind: "purge", N: 1}, {Kind: "append", B: rep(4, 4)}}},
 		{MaxSize: 1024, MaxSeg: 24, Ops: []jop{{Kind: "append", B: rep(1, 10)}, {Kind: "append", B: rep(2, 10)}, {Kind: "purge", N: 9}, {Kind: "append", B: rep(4, 4)}, {Kind: "reopen"}}},
@@ -546,8 +536,6 @@ func main() {
 			c.VMode = 1
 		}
 		adversarial := r.IntN(2) == 0
-		advEmpty := r.IntN(25) == 0
-		c.AdvEmptyOK = advEmpty
 		seq := 0
 		est := 0 // rough size of the current tail's data area (for the adversarial stream)
 		payload := func() []int {
@@ -622,7 +610,7 @@ func main() {
 				c.Ops = append(c.Ops, jop{Kind: "purge", N: r.IntN(3)})
 			}
 		}
-		if !advEmpty && r.IntN(3) != 0 {
+		if r.IntN(3) != 0 {
 			b := payload()
 			cr := &jcrash{B: b}
 			if len(b) <= 40 {
